@@ -235,6 +235,34 @@ where
     Ok(res)
 }
 
+/// Remove all literals from `set` which are above level `until`
+///
+/// `set` is a conjunction of literals. Popping a positive literal resorts to
+/// taking its "true" child, popping a negative literal (whose "true" child is
+/// ⊥) to taking its "false" child.
+#[inline]
+fn literal_set_pop<'a, M>(
+    manager: &'a M,
+    set: Borrowed<'a, M::Edge>,
+    until: LevelNo,
+) -> Borrowed<'a, M::Edge>
+where
+    M: Manager<Terminal = BDDTerminal>,
+    M::InnerNode: HasLevel,
+{
+    match manager.get_node(&set) {
+        Node::Inner(n) if n.level() < until => {
+            let e = n.child(1);
+            if manager.get_node(&e).is_terminal(&BDDTerminal::False) {
+                literal_set_pop(manager, n.child(0), until)
+            } else {
+                literal_set_pop(manager, e, until)
+            }
+        }
+        _ => set,
+    }
+}
+
 /// Prepare a substitution
 ///
 /// The result is a vector that maps levels to replacement functions. The levels
@@ -1122,14 +1150,14 @@ where
             };
             let level = node.level();
 
-            let literal_set = crate::set_pop(manager, literal_set, level);
+            let literal_set = literal_set_pop(manager, literal_set, level);
             let (literal_set, c) = match manager.get_node(&literal_set) {
                 Node::Inner(node) if node.level() == level => {
                     let (t, e) = collect_children(node);
                     if manager.get_node(&e).is_terminal(&BDDTerminal::False) {
-                        (e, true)
+                        (t, true)
                     } else {
-                        (t, false)
+                        (e, false)
                     }
                 }
                 _ => (literal_set, false),
